@@ -48,6 +48,13 @@ FAMILIES = {
     "trailers-distinct": (b"POST / HTTP/1.0\r\nTransfer-Encoding: chunked\r\n\r\n0\r\n", None, False),
     "chunks": (b"POST / HTTP/1.0\r\nTransfer-Encoding: chunked\r\n\r\n", b"1\r\nx\r\n", False),
     "chunks-ext": (b"POST / HTTP/1.0\r\nTransfer-Encoding: chunked\r\n\r\n", b"2;abc\r\nxy\r\n", False),
+    # a chunk announced far above max_chunk_size — bare, with an extension, with a bare ';', with upper-case hex and
+    # leading zeros: its data must not be buffered
+    "huge-chunk": (b"POST / HTTP/1.0\r\nTransfer-Encoding: chunked\r\n\r\n7fffffff\r\n", b"d" * 7, False),
+    "huge-chunk-ext": (b"POST / HTTP/1.0\r\nTransfer-Encoding: chunked\r\n\r\n100000;name=value\r\n", b"d" * 7, False),
+    "huge-chunk-semi": (b"POST / HTTP/1.0\r\nTransfer-Encoding: chunked\r\n\r\n7FFFFFFF;\r\n", b"d" * 7, False),
+    "huge-chunk-zeros": (b"POST / HTTP/1.0\r\nTransfer-Encoding: chunked\r\n\r\n000FFFFF ;x\r\n", b"d" * 7, False),
+    "huge-chunk-second": (b"POST / HTTP/1.0\r\nTransfer-Encoding: chunked\r\n\r\n1\r\nx\r\nfffff;e\r\n", b"d" * 7, False),
     "huge-cl": (b"POST / HTTP/1.0\r\nContent-Length: 999999999\r\n\r\n", b"b" * 7, False),
     "cl-body": (b"POST / HTTP/1.0\r\nContent-Length: 50\r\n\r\n", b"b" * 3, False),
 }
